@@ -3,7 +3,7 @@
    (a) location–scale equivariance over ℝ (no premise on the abstract special functions: the
        arguments handed to `SF.beta_reg`/`SF.inv_beta_reg`/`SF.ln_gamma` coincide);
    (b) the `dof = ∞` limit, as branch lemmas valid for EVERY carrier α (so also IEEE Float):
-       when `isInf freedom` the cdf/sf/variance are literally the Normal formulas;
+       when `isInf freedom` the cdf/sf/inverse_cdf/variance/entropy are literally the Normal formulas;
    (c) the DISCREPANCY hinted at by the property text: the density switches to the Normal density
        already at `freedom ≥ 1e8`, while cdf/sf switch only at `freedom = ∞`.  For every finite
        `freedom ≥ 1e8` the object therefore pairs a Normal pdf with a (non-Normal) Student cdf.
@@ -13,6 +13,7 @@
        ψ(1) − ψ(½) = 2 ln 2, B(½,½) = π).
 -/
 import Statrs.Real.Simp
+import Statrs.Inst.Float
 import Statrs.Gen.D_normal
 import Statrs.Gen.D_students_t
 import Statrs.Gen.D_cauchy
@@ -65,7 +66,7 @@ theorem studentsT_inverse_cdf_loc_scale (l s ν p : ℝ) (hp0 : 0 ≤ p) (hp1 : 
     StudentsT.inverse_cdf ⟨l, s, ν⟩ p = l + s * StudentsT.inverse_cdf ⟨0, 1, ν⟩ p := by
   unfold StudentsT.inverse_cdf
   have : ((0.0 : ℝ) ≤ p ∧ p ≤ (1.0 : ℝ)) := by norm_num; exact ⟨hp0, hp1⟩
-  simp only [this, and_self, if_true]
+  simp only [this, and_self, if_true, rfun_isInf, Bool.false_eq_true, if_false]
   ring
 
 omit [SF ℝ] in
@@ -86,7 +87,7 @@ theorem studentsT_entropy_loc_scale (l s ν : ℝ) :
       = (StudentsT.entropy (⟨0, 1, ν⟩ : StudentsT ℝ)).map (fun h => h + Real.log s) := by
   unfold StudentsT.entropy
   rfun_norm
-  simp only [Option.map_some, Real.log_one, add_zero]
+  simp only [Bool.false_eq_true, if_false, Option.map_some, Real.log_one, add_zero]
 
 example : ∃ s : ℝ, 0 < s := ⟨1, one_pos⟩
 end locscale
@@ -106,7 +107,7 @@ theorem studentsT1_entropy_eq_cauchy_rel [SF ℝ] (P : StudentEntropySpec) (l s 
     StudentsT.entropy ⟨l, s, 1⟩ = Cauchy.entropy ⟨l, s⟩ := by
   unfold StudentsT.entropy Cauchy.entropy
   rfun_norm; lit_norm
-  simp only [Option.some.injEq]
+  simp only [Bool.false_eq_true, if_false, Option.some.injEq]
   rw [show ((1 : ℝ) + 1) / 2 = 1 by norm_num, P.digamma_one_sub_half, P.beta_half_half,
     Real.sqrt_one, one_mul, one_mul,
     Real.log_mul (mul_pos (by norm_num) Real.pi_pos).ne' hs.ne',
@@ -166,15 +167,42 @@ theorem studentsT_pdf_eq_normal_of_large_dof [SF α] (d : StudentsT α) (x : α)
     StudentsT.ln_pdf d x = Normal.ln_pdf ⟨d.f_location, d.f_scale⟩ x := by
   unfold StudentsT.pdf StudentsT.ln_pdf Normal.pdf Normal.ln_pdf; simp [hx, hbig]
 
-/-- `StudentsT.entropy` has NO `dof = ∞` branch: it always evaluates the digamma/beta formula
-    (reported as a gap of the "dof = ∞ is Normal" identity; in IEEE arithmetic this is
-    `∞·(ψ(∞) − ψ(∞)) + …`). -/
-theorem studentsT_entropy_no_inf_branch [SF α] (d : StudentsT α) :
+/-- quantile: with `dof = ∞` the quantile is literally the Normal quantile
+    `μ − σ·√2·erfc_inv(2p)`, for EVERY argument `p` (outside `[0,1]` both panic).  (Before the source
+    fix `freedom = ∞` was handed to `inv_beta_reg`, which does not terminate.) -/
+theorem studentsT_inverse_cdf_inf_eq_normal [SF α] (d : StudentsT α)
+    (hinf : RFun.isInf d.f_freedom = true) (p : α) :
+    StudentsT.inverse_cdf d p = Normal.inverse_cdf ⟨d.f_location, d.f_scale⟩ p := by
+  unfold StudentsT.inverse_cdf Normal.inverse_cdf
+  by_cases hp : ((0.0 : α) ≤ p) ∧ (p ≤ (1.0 : α)) <;> simp [hinf, hp]
+
+/-- the same, spelled out on `[0,1]`: the closed form `μ − σ·√2·erfc_inv(2p)` -/
+theorem studentsT_inverse_cdf_inf_formula [SF α] (d : StudentsT α)
+    (hinf : RFun.isInf d.f_freedom = true) (p : α) (hp0 : (0.0 : α) ≤ p) (hp1 : p ≤ (1.0 : α)) :
+    StudentsT.inverse_cdf d p
+      = d.f_location - ((d.f_scale * (RFun.sqrt2 : α)) * (SF.erfc_inv ((2.0 : α) * p))) := by
+  unfold StudentsT.inverse_cdf; simp [hinf, hp0, hp1]
+
+/-- entropy: with `dof = ∞` the entropy is the Normal entropy `ln σ + ln √(2πe)`.  (Before the source
+    fix `StudentsT.entropy` had no `dof = ∞` branch and evaluated `∞·(ψ(∞) − ψ(∞)) + …` = NaN.) -/
+theorem studentsT_entropy_inf_eq_normal [SF α] (d : StudentsT α)
+    (hinf : RFun.isInf d.f_freedom = true) :
+    StudentsT.entropy d = Normal.entropy ⟨d.f_location, d.f_scale⟩ := by
+  unfold StudentsT.entropy Normal.entropy; simp [hinf]
+
+/-- for FINITE `freedom` the entropy is the digamma/beta formula (the only other branch) -/
+theorem studentsT_entropy_of_finite [SF α] (d : StudentsT α)
+    (hfin : RFun.isInf d.f_freedom = false) :
     StudentsT.entropy d =
       some (((((d.f_freedom + (1.0 : α)) / (2.0 : α)) *
           ((SF.digamma ((d.f_freedom + (1.0 : α)) / (2.0 : α))) - (SF.digamma (d.f_freedom / (2.0 : α)))))
         + (RFun.ln ((RFun.sqrt d.f_freedom) * (SF.beta (d.f_freedom / (2.0 : α)) (0.5 : α)))))
-        + (RFun.ln d.f_scale)) := rfl
+        + (RFun.ln d.f_scale)) := by
+  unfold StudentsT.entropy; simp [hfin]
+
+/-- the hypothesis `isInf freedom` is satisfiable on the IEEE carrier (`StudentsT::new(0, 1, +∞)` is
+    accepted by the constructor) -/
+example : ∃ d : StudentsT Float, RFun.isInf d.f_freedom = true := ⟨⟨0, 1, RFun.inf⟩, by decide⟩
 
 /-! ### (c) the switch-point discrepancy -/
 
